@@ -89,7 +89,7 @@ Definition ex_group4 : group :=
 Definition ex_m (name : str) (key : str) : mcfg :=
   {| m_cfg := {| c_mst := name; c_tagkeys := [s_host; s_region]; c_sk := []; c_typ := Hash; c_dur := 3600000000000;
                  c_groups := [ex_group4]; c_mstidx := None |};
-     m_vers := [(0%N, [key])] |}.
+     m_vers := [(0%N, [key])]; m_db := [] |}.
 Definition ex_row (m : mcfg) (k : rowkind) (t : Z) : brow :=
   {| r_m := m; r_kind := k;
      r_p := {| p_tags := [(s_host, [104; 48]%N); (s_region, [114; 51]%N)]; p_time := t; p_leaf := fun _ => false |} |}.
@@ -102,14 +102,14 @@ Definition ex_cond_region : expr := EEq 0%N s_region [114; 51]%N.
 Theorem C11_stale_key_after_dropped_row_refuted :
   consistent ex_batch /\
   exists g s, nth 2 (batch_run xxh64 true b_empty ex_batch) None = Some (g, s) /\
-    wf_group (m_cfg (ex_m s_mem s_region)) g /\ wf_point (r_p (nth 2 ex_batch (ex_row (ex_m s_mem s_region) RRoute 0))) /\
+    wf_group (base_cfg (ex_m s_mem s_region)) g /\ wf_point (r_p (nth 2 ex_batch (ex_row (ex_m s_mem s_region) RRoute 0))) /\
     eval_cond (m_cfg (ex_m s_mem s_region)) (Some ex_cond_region) (r_p (nth 2 ex_batch (ex_row (ex_m s_mem s_region) RRoute 0))) = true /\
     ~ In (s_id s) (map s_id (target_group xxh64 repaired (cfg_at (ex_m s_mem s_region) (g_id g)) g (Some ex_cond_region))) /\
     option_map (fun gs => s_id (snd gs)) (nth 2 (batch_run xxh64 false b_empty ex_batch) None) = Some 3%N.
 Proof.
   split.
   - intros r1 r2 H1 H2 Hn. simpl in H1, H2.
-    destruct H1 as [<-|[<-|[<-|[]]]]; destruct H2 as [<-|[<-|[<-|[]]]]; try reflexivity; vm_compute in Hn; discriminate.
+    destruct H1 as [<-|[<-|[<-|[]]]]; destruct H2 as [<-|[<-|[<-|[]]]]; try (split; reflexivity); vm_compute in Hn; discriminate.
   - exists ex_group4, {| s_id := 1%N; s_min := []; s_max := [] |}.
     split; [vm_compute; reflexivity|]. split; [unfold wf_group; simpl; apply incl_refl|].
     split. { unfold wf_point. simpl. constructor; [intros [H|[]]; discriminate|constructor; [intros []|constructor]]. }
@@ -128,7 +128,7 @@ Definition ex_group_b : group :=
 Definition ex_m_altered : mcfg :=
   {| m_cfg := {| c_mst := s_cpu; c_tagkeys := [s_host; s_region]; c_sk := []; c_typ := Hash; c_dur := 3600000000000;
                  c_groups := [ex_group; ex_group_b]; c_mstidx := None |};
-     m_vers := [(0%N, [s_host]); (2%N, [s_region])] |}.
+     m_vers := [(0%N, [s_host]); (2%N, [s_region])]; m_db := [] |}.
 Definition ex_row_b : brow :=
   {| r_m := ex_m_altered; r_kind := RRoute;
      r_p := {| p_tags := [(s_host, [104; 49]%N); (s_region, [114; 49]%N)]; p_time := 1700002920000000000; p_leaf := fun _ => false |} |}.
